@@ -23,7 +23,8 @@ try:
     if r.returncode != 0:
         print("patch does not apply"); sys.exit(3)
     for pid in ids:
-        r = subprocess.run([os.path.join(HERE, "check"), pid, "--tier", tier], capture_output=True, text=True)
+        r = subprocess.run([os.path.join(HERE, "check"), pid, "--tier", tier], capture_output=True, text=True,
+                           env=dict(os.environ, NDI_EVID_DIR="/tmp/ndi-trypatch-evidence"))
         rc[pid] = r.returncode
         print(r.stdout.strip()[-1500:])
         if r.stderr.strip():
